@@ -1,0 +1,27 @@
+//go:build verif
+
+package ecs
+
+// Contracts for relation.go (C13: queries created concurrently from one filter get their own
+// relation slice; C03/C04: the converted relations are the given ones, in order).
+
+// Relation.id may register the component type of a typed relation (TypeID); that side effect
+// on the world's registry is outside the state these contracts describe.
+//@ func (*Relation).id
+//@   trusted
+//@   modifies r.component, r.componentType
+
+//@ func (relationSlice).toRelationsSlowPath
+//@   serves C13 C03 C04
+//@   maypanic
+//@   requires poolInv(&world.storage.entityPool) && (forall k int :: 0 <= k && k < len(r) ==> uint64(r[k].target.id) < uint64(len(world.storage.entityPool.entities)))
+//@   requires world != nil && mask != nil && len(r) > 0 && uint64(len(r)) + uint64(len(out)) < 1<<32
+//@   requires len(world.storage.registry.IsRelation) == maskTotalBits
+//@   loop 1 invariant fresh: copy ==> __fresh(out)
+//@   loop 1 invariant len: len(out) == old(len(out)) + __idx
+//@   loop 1 invariant prefix: forall k int :: 0 <= k && k < old(len(out)) ==> out[k] == old(out[k])
+//@   loop 1 invariant targets: forall k int :: 0 <= k && k < __idx ==> out[old(len(out)) + k].target == r[k].target
+//@   ensures  fresh: copy ==> __fresh(result)
+//@   ensures  len: len(result) == old(len(out)) + len(r)
+//@   ensures  prefix: forall k int :: 0 <= k && k < old(len(out)) ==> result[k] == old(out[k])
+//@   ensures  targets: forall k int :: 0 <= k && k < len(r) ==> result[old(len(out)) + k].target == r[k].target
